@@ -121,7 +121,7 @@ func c06NewWorld(k *fw.K, cfg c06Cfg, static *big.Int) *c06World {
 	w.nfc = iso7816.NewNfcSession(tr)
 	w.nfc.SetSecureMessaging(newLibSM(k, pre, kenc, kmac, ssc))
 	if sel, err := w.nfc.SelectAid(chipsim.LDS1AID); err != nil || !sel {
-		fw.Bug("protected SELECT AID on the simulated chip failed: %v", err)
+		fw.LibFail("select-aid-failed", "protected SELECT AID on the conforming simulated chip failed: %v", err)
 	}
 	w.doc = &document.Document{}
 	dg14, err := document.NewDG14(w.dg14)
@@ -157,7 +157,7 @@ func c06Positive(k *fw.K, cfg c06Cfg, idx int) {
 		cv := w0.curve
 		pk, err := cv.Decode(w0.card.CA.LastPKIFD)
 		if err != nil {
-			fw.Bug("terminal public key undecodable")
+			fw.LibFail("ca-terminal-key-undecodable", "the terminal sent an ephemeral public key that is not a point of the curve")
 		}
 		d := new(big.Int).SetBytes(randBytes(k.RNG, cv.ByteLen-1))
 		d.Add(d, big.NewInt(2))
